@@ -19,7 +19,11 @@ func init() {
 		Run: runC02,
 		Mutants: []Mutant{
 			{Name: "copy-continue-after-wait-failure", File: "internal/protocol/session/tunnel/bridge_forward.go", Rule: "R-C02-1",
-				Old: "if waitErr := b.rateLimiter.WaitN(b.Ctx(), nr); waitErr != nil {\n\t\t\t\t\tbreak\n\t\t\t\t}", New: "if waitErr := b.rateLimiter.WaitN(b.Ctx(), nr); waitErr != nil {\n\t\t\t\t\tcontinue\n\t\t\t\t}"},
+				Old: "if waitErr := b.waitBandwidth(nr); waitErr != nil {\n\t\t\t\t\tbreak\n\t\t\t\t}", New: "if waitErr := b.waitBandwidth(nr); waitErr != nil {\n\t\t\t\t\tcontinue\n\t\t\t\t}"},
+			{Name: "wait-whole-read-at-once", File: "internal/protocol/session/tunnel/bridge_forward.go", Rule: "R-C02-1",
+				Old: "\t\tif burst > 0 && k > burst {\n\t\t\tk = burst\n\t\t}\n", New: "\t\t_ = burst\n"},
+			{Name: "target-forwarder-read-unlocked", File: "internal/protocol/session/tunnel/bridge_accessor.go", Rule: "R-C02-2",
+				Old: "\tb.tunnelConnMu.RLock()\n\tdefer b.tunnelConnMu.RUnlock()\n\treturn b.targetForwarder", New: "\treturn b.targetForwarder"},
 			{Name: "copy-short-write-ignored", File: "internal/protocol/session/tunnel/bridge_forward.go", Rule: "R-C02-1",
 				Old: "\t\t\tif nr != nw {\n\t\t\t\tbreak\n\t\t\t}\n", New: ""},
 			{Name: "adapter-drops-remainder", File: "internal/protocol/session/tunnel/bridge_forward.go", Rule: "R-C02-1",
@@ -38,8 +42,24 @@ const tunPkg = "internal/protocol/session/tunnel"
 
 func runC02(r *Report) {
 	// delegating Read/Write wrappers on the server data path are transparent (R-C02-1)
+	nWait := 0
 	for _, f := range r.P.FuncsIn("internal/protocol/session/tunnel") {
 		checkSyncPoolOwnership(r, "R-C02-1", f)
+		// the bandwidth limiter only delays: the amount handed to WaitN is clamped to the bucket size
+		// (WaitN(n > burst) fails at once, which would drop the bytes just read and end the tunnel)
+		for _, w := range Calls(f, false, "rate:Limiter.WaitN") {
+			nWait++
+			clamped := false
+			for _, rt := range Origins(Arg(w, 1)) {
+				if c, ok := rt.V.(*ssa.Call); ok && CalleeOf(c).Is("rate:Limiter.Burst") {
+					clamped = true
+				}
+			}
+			r.Ob("R-C02-1", CallPos(w), clamped, "the token amount waited for is clamped to the limiter's burst ("+originSummary(Arg(w, 1))+"): a read larger than the bucket is waited for in slices, never refused", r.P.FuncName(f), "wait-clamped-to-burst")
+		}
+	}
+	if nWait < 1 {
+		r.Fail("R-C02-1", 0, "no bandwidth wait (Limiter.WaitN) found in the bridge package", "internal/protocol/session/tunnel", "wait-clamped-to-burst:floor")
 	}
 	checkDelegatingWrappers(r, "R-C02-1", "internal/protocol/session/tunnel", "internal/protocol/adapter", "internal/stream", "internal/protocol/session")
 	// ---- R-C02-1 copy loop ---------------------------------------------------
@@ -70,7 +90,10 @@ func runC02(r *Report) {
 	guardedBy(r, "R-C02-2", tunPkg, "Bridge", "sourceForwarder", "sourceConnMu", map[string]string{
 		"NewBridge": "constructor: the bridge is not shared yet",
 	})
-	r.Floor("R-C02-2", 8, "accesses to Bridge.sourceForwarder")
+	guardedBy(r, "R-C02-2", tunPkg, "Bridge", "targetForwarder", "tunnelConnMu", map[string]string{
+		"NewBridge": "constructor: the bridge is not shared yet",
+	})
+	r.Floor("R-C02-2", 13, "accesses to Bridge.sourceForwarder / Bridge.targetForwarder")
 	if dw := r.need("R-C02-2", tunPkg, "dynamicSourceWriter.Write"); dw != nil {
 		n := 0
 		for _, w := range Calls(dw, false, "Write") {
@@ -176,6 +199,25 @@ func runC02(r *Report) {
 			})
 		}
 		r.Ob("R-C02-3", start.Pos(), okWait && gos == 2, "Bridge.Start returns only after waiting for both copy goroutines", "Bridge.Start", "waits-for-both")
+	}
+	// target attach: Start is released (ready closed) only after the target end and its forwarder are
+	// installed; a Start woken earlier finds no forwarder and never copies
+	if st := r.need("R-C02-3", tunPkg, "Bridge.SetTargetConnection"); st != nil {
+		mrs := Calls(st, true, "Bridge.markReady")
+		if len(mrs) == 0 {
+			r.Fail("R-C02-3", st.Pos(), "SetTargetConnection does not signal readiness", "SetTargetConnection", "ready-after-install")
+		}
+		for _, mr := range mrs {
+			late := WalkFrom(nil, mr.(ssa.Instruction), func(in ssa.Instruction) int {
+				if s2, ok := in.(*ssa.Store); ok {
+					if _, f, _, isF := FieldOf(s2.Addr); isF && (f == "targetForwarder" || f == "targetConn" || f == "targetStream" || f == "targetTunnelConn") {
+						return Hit
+					}
+				}
+				return Cont
+			}, nil)
+			r.Ob("R-C02-3", CallPos(mr), len(late) == 0, "readiness is signalled after the target connection, stream and forwarder are stored (no store of a target field follows markReady)", "SetTargetConnection", "ready-after-install")
+		}
 	}
 	if cl := r.need("R-C02-3", tunPkg, "Bridge.Close"); cl != nil {
 		mb := Calls(cl, false, "ManagerBase.Close", "ResourceBase.Close", "Dispose.Close")
